@@ -11,7 +11,7 @@ produced; what is proved here, for all inputs, is
   * the register allocator invariant and limits (`frame_inv`, `frame_limits`,
     `frame_new_wrap_witness`, `frame_new_guarded`).
   * `compile_wf`: the C01 compiler core (`Model/Compile.lean`) emits code that `wfChunk` accepts.
-Helper lemmas: Lemmas/C05Codec.lean, C05Frame.lean, C05WF.lean, C05Sweep.lean, C05CompileWF.lean, C05CWBytes1-5.lean, C05CWFits.lean, C05CWLoop1-7.lean.
+Helper lemmas: Lemmas/C05Codec.lean, C05Frame.lean, C05WF.lean, C05Sweep.lean, C05CompileWF.lean, C05CWBytes1-5.lean, C05CWFits.lean, C05CWLoop1-7.lean, C05CWCert1-4.lean.
 -/
 import KotoVerif.Lemmas.C05Codec
 import KotoVerif.Lemmas.C05Frame
@@ -21,6 +21,7 @@ import KotoVerif.Lemmas.C05CompileWF
 import KotoVerif.Lemmas.C05CWBytes5
 import KotoVerif.Lemmas.C05CWFits
 import KotoVerif.Lemmas.C05CWLoop7
+import KotoVerif.Lemmas.C05CWCert4
 
 namespace KotoVerif.C05
 open KotoVerif.Gen KotoVerif.Bytecode KotoVerif.Frame
@@ -499,6 +500,56 @@ theorem compile_wf_loops_instance :
               (.ite (.cmp .eq (.var 0) (.int 7)) (.expr (.assign 1 (.var 0)))
                 (.loop (some (.var 1, true)) (.expr (.assign 1 (.bool true))))))))
         (.var 0) 2 with
+      | some (flat, o, F2) => o.reg.any (fun r => wfChunk (encodeProg (fun _ => 0) F2.registersUsed flat r) [.int])
+      | none => false) = true := by decide
+
+open KotoVerif.Compile in
+/-- **compile_wf_cert** (the whole statement layer — `break`, `continue` and endless `loop` included):
+for *every* main block `s ; e` that `compileProg` compiles, the sweep of the encoded bytes is the
+listing of the emitted instructions and that listing passes the verifier's check `checkAnns` (with the
+depth `(0,0,0)` everywhere — an annotation may also cover instructions no execution reaches, such as
+the `Jump` over an else branch after a then branch that ends in `break`). The jumps of `break` and
+`continue` are in range whatever the nesting (`flatAux_range`), and in a stream whose jumps are in range
+every byte offset lands on the pc of its target instruction (`tgt_rest`). `checkAnns` is everything the
+soundness theorems use; what this does not give for `break` / `continue` / endless `loop` is that the
+verifier's own inference `annotate` arrives at an accepted annotation — `wfChunk … = true` is the
+theorem `compile_wf_loops` for the fragment without them, and is observed by translation validation
+on the real chunks. -/
+theorem compile_wf_cert (s : Compile.Stmt) (e : Compile.Expr) (lc : Nat) (flat : List Compile.LFlat)
+    (o : Compile.Out) (F2 : Compile.Frame) (cidx : Int → Nat) (consts : List CKind)
+    (h : compileProg s e lc = some (flat, o, F2)) (hlc : lc ≤ 254) (hsz : sizeOfL cidx flat ≤ 65535)
+    (hc : ∀ n, cidx n < 4294967296 ∧ consts[cidx n]? = some .int) :
+    ∃ r, o.reg = some r
+      ∧ sweep ((encodeProg cidx F2.registersUsed flat r).length + 1) 0 (encodeProg cidx F2.registersUsed flat r)
+          = some (lay none 0 (progInstrs cidx F2.registersUsed flat r), [])
+      ∧ checkAnns consts 0 0 (lay (some Z) 0 (progInstrs cidx F2.registersUsed flat r)) = true :=
+  cert_compileProg s e lc flat o F2 cidx consts h hlc hsz hc
+
+open KotoVerif.Compile in
+/-- **compile_no_internal_fault**: consequently, for every main block of the statement layer, every
+configuration the abstract VM can reach from the entry of the compiled code is fault-free: the
+instruction pointer is on an emitted instruction, every jump — forward, backward, `break`, `continue`
+— has landed on one, and control never runs past the end of the unit. -/
+theorem compile_no_internal_fault (s : Compile.Stmt) (e : Compile.Expr) (lc : Nat) (flat : List Compile.LFlat)
+    (o : Compile.Out) (F2 : Compile.Frame) (cidx : Int → Nat) (consts : List CKind)
+    (h : compileProg s e lc = some (flat, o, F2)) (hlc : lc ≤ 254) (hsz : sizeOfL cidx flat ≤ 65535)
+    (hc : ∀ n, cidx n < 4294967296 ∧ consts[cidx n]? = some .int) :
+    ∃ r, o.reg = some r ∧ ∀ c, Reach (lay (some Z) 0 (progInstrs cidx F2.registersUsed flat r)) ⟨0, 0, 0, []⟩ c →
+      ¬ Fault (lay (some Z) 0 (progInstrs cidx F2.registersUsed flat r)) c :=
+  compileProg_no_fault s e lc flat o F2 cidx consts h hlc hsz hc
+
+open KotoVerif.Compile in
+/-- non-vacuity, evaluated in the kernel, with `break`, `continue`, an endless `loop` and dead code:
+`x0 = 0; loop { x0 += 1; if x0 == 3 { continue } else { if x0 > 9 { break } }; while true { break } };
+x0` compiles and the executable `wfChunk` accepts its bytes -/
+theorem compile_wf_break_continue_instance :
+    (match compileProg
+        (.seq (.expr (.assign 0 (.int 0)))
+          (.loop none
+            (.seq (.expr (.compound .add 0 (.int 1)))
+              (.seq (.ite (.cmp .eq (.var 0) (.int 3)) .cont (.ifThen (.cmp .gt (.var 0) (.int 9)) .brk))
+                (.loop (some (.bool true, false)) .brk)))))
+        (.var 0) 1 with
       | some (flat, o, F2) => o.reg.any (fun r => wfChunk (encodeProg (fun _ => 0) F2.registersUsed flat r) [.int])
       | none => false) = true := by decide
 
